@@ -14,17 +14,18 @@ structure SameN (c c' : Conn) : Prop where
   connected : c'.connected = c.connected
   lastRecvMs : c'.lastRecvMs = c.lastRecvMs
   lastSendMs : c'.lastSendMs = c.lastSendMs
+  outPacketId : c'.outPacketId = c.outPacketId
 
-theorem SameN.refl (c : Conn) : SameN c c := ⟨rfl, rfl, rfl, rfl, rfl, rfl, rfl, rfl, rfl⟩
+theorem SameN.refl (c : Conn) : SameN c c := ⟨rfl, rfl, rfl, rfl, rfl, rfl, rfl, rfl, rfl, rfl⟩
 theorem SameN.trans {a b c : Conn} (h1 : SameN a b) (h2 : SameN b c) : SameN a c :=
-  ⟨h2.1.trans h1.1, h2.2.trans h1.2, h2.3.trans h1.3, h2.4.trans h1.4, h2.5.trans h1.5, h2.6.trans h1.6, h2.7.trans h1.7, h2.8.trans h1.8, h2.9.trans h1.9⟩
+  ⟨h2.1.trans h1.1, h2.2.trans h1.2, h2.3.trans h1.3, h2.4.trans h1.4, h2.5.trans h1.5, h2.6.trans h1.6, h2.7.trans h1.7, h2.8.trans h1.8, h2.9.trans h1.9, h2.10.trans h1.10⟩
 
-theorem emit_sameN (c : Conn) (ev : Event) : SameN c (c.emit ev) := ⟨rfl, rfl, rfl, rfl, rfl, rfl, rfl, rfl, rfl⟩
-theorem setChan_sameN (c : Conn) (ch : Nat) (x : Channel) : SameN c (c.setChan ch x) := ⟨rfl, rfl, rfl, rfl, rfl, rfl, rfl, rfl, rfl⟩
+theorem emit_sameN (c : Conn) (ev : Event) : SameN c (c.emit ev) := ⟨rfl, rfl, rfl, rfl, rfl, rfl, rfl, rfl, rfl, rfl⟩
+theorem setChan_sameN (c : Conn) (ch : Nat) (x : Channel) : SameN c (c.setChan ch x) := ⟨rfl, rfl, rfl, rfl, rfl, rfl, rfl, rfl, rfl, rfl⟩
 theorem markClose_sameN (c : Conn) (r : Nat) : SameN c (c.markClose r) := by
   unfold Conn.markClose; split
   · exact SameN.refl _
-  · exact ⟨rfl, rfl, rfl, rfl, rfl, rfl, rfl, rfl, rfl⟩
+  · exact ⟨rfl, rfl, rfl, rfl, rfl, rfl, rfl, rfl, rfl, rfl⟩
 
 theorem freeNodes_sameN (c : Conn) (k : Nat) : SameN c (c.freeNodes k) := by
   unfold Conn.freeNodes
@@ -47,7 +48,7 @@ theorem noteClose_sameN (c : Conn) (b : Bunch) : SameN c (c.noteClose b) := by
     generalize (if (b.chIndex == 0) = true then c.markClose crControlChannelClose else c) = c' at *
     split
     · exact hc
-    · exact hc.trans ⟨rfl, rfl, rfl, rfl, rfl, rfl, rfl, rfl, rfl⟩
+    · exact hc.trans ⟨rfl, rfl, rfl, rfl, rfl, rfl, rfl, rfl, rfl, rfl⟩
 
 theorem foldl_noteClose_sameN (g : List Bunch) : ∀ c : Conn, SameN c (g.foldl Conn.noteClose c) := by
   induction g with
@@ -119,8 +120,8 @@ theorem createChan_sameN (c : Conn) (ch : Nat) : SameN c (c.createChan ch) := by
   split
   · exact emit_sameN _ _
   · split
-    · exact ⟨rfl, rfl, rfl, rfl, rfl, rfl, rfl, rfl, rfl⟩
-    · exact ⟨rfl, rfl, rfl, rfl, rfl, rfl, rfl, rfl, rfl⟩
+    · exact ⟨rfl, rfl, rfl, rfl, rfl, rfl, rfl, rfl, rfl, rfl⟩
+    · exact ⟨rfl, rfl, rfl, rfl, rfl, rfl, rfl, rfl, rfl, rfl⟩
 
 theorem getOrCreateChan_sameN (c : Conn) (b : Bunch) (inc : Bool) : SameN c (c.getOrCreateChan b inc).1 := by
   unfold Conn.getOrCreateChan
